@@ -83,16 +83,22 @@ C17_CODEC = [
     H("c17_header_from_parts_rules", "c17_codec", "quick", 600, "illegal header/length combinations refused", CODEC, "tag 0..63, value full u32"),
     H("c17_maybe_len", "c17_codec", "quick", 300, "PacketLength::maybe_len for every value", CODEC, "full u32"),
 ]
+RD_F = ["composed::message::reader::PacketBodyReader::{new,read,fill_inner,into_inner}", "composed::message::reader::LimitedReader", "util::fill_buffer_bytes", "types::PacketLength::try_from_reader"]
+C17_READER = [
+    H("c17_reader_illegal_first", "c17_reader", "quick", 900, "scaled build: partial first chunk 2^e, e<=3, every tag<64: accepted iff data tag and size >= minimum", RD_F, "tag and exponent symbolic"),
+]
 PROPS["C17"] = {
-    "inject": [("src/lib.rs", "c17_codec")],
+    "substitutions": [("src/composed/message/reader/packet_body.rs", "const BUFFER_SIZE: usize = 8 * 1024;", "const BUFFER_SIZE: usize = 8;"),
+                      ("src/composed/message/reader/packet_body.rs", "len < 512", "len < 4")],
+    "inject": [("src/lib.rs", "c17_codec"), ("src/composed/message/reader/packet_body.rs", "c17_reader")],
     "mem_gb": 10,
     "level_text": "Bounded model checking of the real framing code: header/length codecs are decided for every u32 length, "
                   "every tag and both formats against an independent RFC 9580 4.2 encoder/decoder.",
     "level_note": "Codecs: no bound beyond the types. Error-message formatting stubbed. Kani/CBMC trusted.",
     "bounds": "codecs: full u32 lengths, tags 0..63, both header formats",
     "outside": "see DESIGN.md C17",
-    "assumptions": [FMT_STUBS],
-    "harnesses": list(C17_CODEC),
+    "assumptions": [FMT_STUBS, "c17_reader_*: checked in a scaled copy (PacketBodyReader BUFFER_SIZE 8 KiB -> 8; first-partial-chunk minimum 512 -> 4); the framing state machine is unchanged"],
+    "harnesses": list(C17_CODEC) + C17_READER,
 }
 
 # ------------------------------------------------------------------------------------------------
@@ -295,8 +301,9 @@ PROPS["C02"] = {
         H("c15_issuer_keyid", "c11_sig", "quick", 900, "issuer key id subpacket vs verifying key id: accepted iff equal", VER_FUNCS, "8+8 symbolic bytes"),
     ],
 }
+OPS_F = ["packet::OnePassSignature::matches"]
 PROPS["C15"] = {
-    "inject": [("src/packet/signature/types.rs", "c11_sig")],
+    "inject": [("src/packet/signature/types.rs", "c11_sig"), ("src/packet/one_pass_signature.rs", "c15_ops")],
     "mem_gb": 14,
     "level_text": "Bounded model checking of the acceptance rules on the signature path as truth tables over symbolic version / type / "
                   "criticality octets, each against the RFC 9580 rule as oracle.",
@@ -314,6 +321,13 @@ PROPS["C15"] = {
         H("c11_fields_v4", "c11_sig", "quick", 600, "unknown critical hashed subpacket refused, non-critical / experimental accepted", SIGN_FUNCS, "types 0..127"),
         H("c11_fields_v4_exp", "c11_sig", "quick", 600, "experimental critical subpacket accepted", SIGN_FUNCS, "types 100..110"),
         H("c15_issuer_keyid", "c11_sig", "thorough", 900, "issuer key id binding", VER_FUNCS, ""),
+        H("c15_ops_v3_sig4", "c15_ops", "quick", 600, "OPS v3 vs v4 signature: matches iff type, hash, pk octets equal", OPS_F, "6 symbolic octets"),
+        H("c15_ops_v3_sig6", "c15_ops", "quick", 600, "OPS v3 vs v6 signature: never matches", OPS_F, "6 symbolic octets"),
+        H("c15_ops_v6_sig6", "c15_ops", "quick", 600, "OPS v6 vs v6 signature: also salts equal", OPS_F, "6 octets + 2x2 salt octets"),
+        H("c15_ops_v6_sig4", "c15_ops", "thorough", 600, "OPS v6 vs v4 signature: never matches", OPS_F, "6 symbolic octets"),
+        H("c15_ops_unknown_sig4", "c15_ops", "quick", 600, "OPS of unknown version (any octet) vs v4 signature: never matches", OPS_F, "7 symbolic octets"),
+        H("c15_align_cert_v4sig", "c11_sig", "quick", 900, "third-party certification, v4 signature: accepted iff the *signer* is v4, whatever the signee version", VER_FUNCS, "signer/signee version in {4,6}"),
+        H("c15_align_cert_v6sig", "c11_sig", "thorough", 900, "third-party certification, v6 signature", VER_FUNCS, "signer/signee version in {4,6}"),
     ],
 }
 
@@ -360,4 +374,22 @@ PROPS["C12"] = {
     "outside": "AEAD/HKDF/SHA-2 internals; chunk sizes > 64 as data; SEIPDv1; S2K; ECDH/X25519 wrap; reader side",
     "assumptions": AEAD_ASSUME,
     "harnesses": C12_H,
+}
+
+# ------------------------------------------------------------------------------------------------
+PROPS["C10"] = {
+    "inject": [("src/armor/writer.rs", "c10_armor")],
+    "mem_gb": 12,
+    "level_text": "Bounded model checking of the checksum path of the armor writer: the table-driven CRC-24 the writer uses equals the "
+                  "bitwise RFC 9580 6.1.1 algorithm for every data of the stated lengths and any chunking, and the footer carries its base64.",
+    "level_note": "Bounds: data 0..3 octets (CRC is a byte-wise fold, the step is what is checked). The dearmorer (nom parsers, BufReader, "
+                  "Base64Decoder over BytesMut) is not decidable with Kani; its CRC defect F5 is recorded from native testing.",
+    "bounds": "data 0..3 octets; one split",
+    "outside": "body line wrapping and base64 of the body; the whole reader side; header maps; block types other than MESSAGE",
+    "assumptions": [FMT_STUBS],
+    "harnesses": [
+        H("c10_crc24_%d" % l, "c10_armor", "quick" if l in (1, 2) else "thorough", 600, "Crc24Hasher over every %d-octet data == bitwise RFC CRC-24" % l, ["crc24::Crc24Hasher::{new,write,finish}"], "L=%d" % l) for l in range(4)
+    ] + [
+        H("c10_crc24_split_2_1", "c10_armor", "quick", 600, "CRC over 2+1 chunking == reference", ["crc24::Crc24Hasher"], "L=3"),
+    ],
 }
